@@ -180,7 +180,9 @@ class AstAnalyzer:
                 curr = live_out
                 while curr != prev:
                     prev = curr
-                    curr = visit_block(stmt.body, prev).difference({p_loop_var})
+                    # What is live after the loop is also live at the end of every iteration
+                    # (the loop may exit there), even if the body reassigns it.
+                    curr = live_out | visit_block(stmt.body, prev).difference({p_loop_var})
                 # Variables used in the loop header (e.g. `n` in `range(n)`) are live before the loop.
                 return curr | _used_vars(stmt.iter)
             if isinstance(stmt, ast.While):
@@ -189,7 +191,7 @@ class AstAnalyzer:
                 curr = live_out | cond_vars
                 while curr != prev:
                     prev = curr
-                    curr = visit_block(stmt.body, prev) | cond_vars
+                    curr = live_out | visit_block(stmt.body, prev) | cond_vars
                 return curr
             if isinstance(stmt, ast.Break):
                 # The following is sufficient for the current restricted usage, where
